@@ -79,7 +79,7 @@ def run(prop: str, contracts: list[Contract], lemmas: list[Lemma], z3_ms: int | 
 	for i, (ob, res) in enumerate(zip(eng.obligations, results)):
 		if ob.expect == 'proved' and res.verdict == 'unknown':
 			from .smt import discharge_text
-			r2 = discharge_text(texts[i], ob.want, (z3_ms or 10000) * 3, (cvc5_ms or 20000) * 3)
+			r2 = discharge_text(texts[i], ob.want, (z3_ms or 10000) * 2, (cvc5_ms or 20000) * 2)
 			r2.seconds += res.seconds
 			r2.tried = res.tried + ['retry'] + r2.tried
 			results[i] = r2
